@@ -194,6 +194,9 @@ def enabled(m, tier):
     ops.append(("bad", "write_column-unknown-name"))
     ops.append(("bad", "write_column-wrong-length"))
     ops.append(("bad", "write_cell-row-out-of-range"))
+    if n >= 1:
+        ops.append(("bad", "write_rows-second-index-out-of-range"))
+        ops.append(("bad", "write_rows-second-row-wrong-length"))
     return ops
 
 
@@ -265,6 +268,10 @@ def apply(df, m, op, k):
             df.write_column([val(m.types[0], 1)] * (n + 1), name=m.names[0])
         elif kind == "write_cell-row-out-of-range":
             df.write_cell(val(m.types[0], 1), position=[n, 0])
+        elif kind == "write_rows-second-index-out-of-range":
+            df.write_rows([tuple(val(t, 2) for t in m.types), tuple(val(t, 3) for t in m.types)], [0, n])
+        elif kind == "write_rows-second-row-wrong-length":
+            df.write_rows([tuple(val(t, 2) for t in m.types), tuple(val(t, 3) for t in m.types) + (1,)], [0, n - 1] if n > 1 else [0, 0])
 
 
 def opkind(op):
@@ -324,6 +331,9 @@ def run_case(case):
             r.viol("C16|create:%s|raises-%s" % (variant, type(e).__name__),
                    "creating a frame %r with %d rows via %s raises %s: %s" % (sch, nrows, variant, type(e).__name__, str(e)[:120]), {})
             return False
+        # a second handle that has already read the table; every later reader must agree through it too
+        held = state["b"].data_frames[name]
+        _ = (held.column_names, held.dtype, held.df_shape, held.units)
         if not hist:
             if not verify(r, df, m, "create:" + variant, "in-session"):
                 return False
@@ -338,6 +348,7 @@ def run_case(case):
                 state["f"] = nix.File.open(path, nix.FileMode.ReadWrite)
                 state["b"] = state["f"].blocks["b"]
                 df = state["b"].data_frames[name]
+                held = state["b"].data_frames[name]
                 exc = None
             else:
                 snapshot = ([list(x) for x in m.cols], list(m.names), list(m.types), m.units)
@@ -359,7 +370,7 @@ def run_case(case):
                 wrote = wrote or op[0] != "reopen"
                 r.outcomes.add("ok:" + op[0])
             if ok:
-                ok = verify(r, df, m, opk, "in-session")
+                ok = verify(r, df, m, opk, "in-session") and verify(r, held, m, opk, "second-handle")
             if not ok:
                 if not last:
                     del r.violations[nv:]
